@@ -963,12 +963,14 @@ static void handle_conn_error(ares_conn_t *conn, ares_bool_t critical_failure,
 static ares_status_t ares_requeue_query_int(
   ares_query_t *query, const ares_timeval_t *now, ares_status_t status,
   ares_bool_t inc_try_count, const ares_dns_record_t *dnsrec,
-  ares_array_t **requeue, ares_bool_t *resend)
+  ares_array_t **requeue, ares_bool_t *resend, ares_server_t *failed_server)
 {
   ares_channel_t *channel   = query->channel;
   size_t          max_tries = ares_slist_len(channel->servers) * channel->tries;
-  /* Server of the attempt that just failed, if it was on a connection */
-  ares_server_t  *server    = (query->conn != NULL) ? query->conn->server : NULL;
+  /* Server of the attempt that just failed: the one whose connection the
+   * query is on, or the one ares_send_query() could not even send it to */
+  ares_server_t  *server =
+    (query->conn != NULL) ? query->conn->server : failed_server;
 
   ares_query_remove_from_conn(query);
 
@@ -1012,7 +1014,7 @@ ares_status_t ares_requeue_query(ares_query_t *query, const ares_timeval_t *now,
                                  ares_array_t           **requeue)
 {
   return ares_requeue_query_int(query, now, status, inc_try_count, dnsrec,
-                                requeue, NULL);
+                                requeue, NULL, NULL);
 }
 
 /*! Count the number of servers that share the same highest priority (lowest
@@ -1333,7 +1335,7 @@ static ares_status_t ares_send_query_attempt(ares_server_t *requested_server,
       case ARES_EBADFAMILY:
         server_increment_failures(server, query->using_tcp);
         return ares_requeue_query_int(query, now, status, ARES_TRUE, NULL,
-                                      NULL, resend);
+                                      NULL, resend, server);
 
       /* Anything else is not retryable, likely ENOMEM */
       default:
@@ -1373,12 +1375,12 @@ static ares_status_t ares_send_query_attempt(ares_server_t *requested_server,
       }
       *refused = ARES_TRUE;
       return ares_requeue_query_int(query, now, status, ARES_TRUE, NULL, NULL,
-                                    resend);
+                                    resend, server);
 
     default:
       server_increment_failures(server, query->using_tcp);
       return ares_requeue_query_int(query, now, status, ARES_TRUE, NULL, NULL,
-                                    resend);
+                                    resend, server);
   }
 
   /* The query is on the wire (or in the connection's output buffer) from here
